@@ -113,10 +113,10 @@ theorem b32_decodeCore_encode (e : B64Enc) (h : Alphabet32OK e) (bs : List Nat) 
 theorem b32_encode_length (e : B64Enc) (bs : List Nat) : (b32Encode e bs).length = b32EncodedLen bs.length := by
   fun_induction b32Encode e bs with
   | case1 => rfl
-  | case2 a => rfl
-  | case3 a b => rfl
-  | case4 a b c => rfl
-  | case5 a b c d => rfl
+  | case2 a => simp [b32Pads, b32EncodedLen]
+  | case3 a b => simp [b32Pads, b32EncodedLen]
+  | case4 a b c => simp [b32Pads, b32EncodedLen]
+  | case5 a b c d => simp [b32Pads, b32EncodedLen]
   | case6 a b c d f rest ih => simp only [List.length_cons, ih, b32EncodedLen]; omega
 
 theorem b32_encode_no_newline (e : B64Enc) (h : Alphabet32OK e) (bs : List Nat) (hb : BytesOK bs) :
